@@ -44,6 +44,28 @@ SizeD(t, v) ==
       \* its length (a recursive type has no finite description as a tree): every node is its scalar plus the header of
       \* its next pointer.  ChainAsTree is the same list spelled out; Gen_SizeOf!Laws checks they agree for short lists.
       [] t.k = "chain"  -> t.n * (ScalarSize[t.e.k] + PtrHdr)
+\* ---- size.Stat (beyond the listed properties): the SHAPE of the rendering.  Stat(v, depth, maxItem) is a list of
+\* lines; line = <<indent level, the size printed on it>> (the type names and labels in between are not modelled).
+\* The header line of a value carries its size; below it, while depth lasts: the first maxItem elements of a slice /
+\* array, the pointee of a non-nil pointer, the dynamic value of an interface (a nil interface renders "<nil>": size
+\* -1 here), every field of a struct; each one level further in.  Maps are rendered in Go's random map order: only
+\* maps with at most one entry are described.  Strings have no sub-lines.
+RECURSIVE StatD(_, _, _, _)
+Indent(ls) == [i \in DOMAIN ls |-> <<ls[i][1] + 1, ls[i][2]>>]
+RECURSIVE ConcatAll(_)
+ConcatAll(ss) == IF Len(ss) = 0 THEN <<>> ELSE ss[1] \o ConcatAll(Tail(ss))
+StatD(t, v, depth, maxItem) ==
+    LET head == << <<0, SizeD(t, v)>> >>
+        MinN(a, b) == IF a < b THEN a ELSE b
+        subs ==
+          CASE t.k \in {"slice", "array"} ->
+                 ConcatAll([i \in 1..MinN(Len(v.el), IF maxItem < 0 THEN 0 ELSE maxItem) |-> StatD(t.e, Elem(v, i), depth - 1, maxItem)])
+            [] t.k = "ptr"    -> IF v.nil THEN <<>> ELSE StatD(t.e, v.to, depth - 1, maxItem)
+            [] t.k = "iface"  -> IF v.nil THEN << <<0, -1>> >> ELSE StatD(v.dt, v.dyn, depth - 1, maxItem)
+            [] t.k = "struct" -> ConcatAll([i \in 1..Len(v.f) |-> StatD(t.f[i], v.f[i], depth - 1, maxItem)])
+            [] t.k = "map"    -> IF Len(v.kv) = 0 \/ maxItem <= 0 THEN <<>> ELSE StatD(t.e, v.kv[1][2], depth - 1, maxItem)
+            [] OTHER -> <<>>
+    IN IF depth = 0 THEN head ELSE head \o Indent(subs)
 RECURSIVE ChainT(_, _), ChainV(_)
 ChainT(e, n) == [k |-> "struct", f |-> <<e, [k |-> "ptr", e |-> IF n <= 1 THEN e ELSE ChainT(e, n - 1)]>>]
 ChainV(n) == [f |-> <<[x |-> 1], IF n <= 1 THEN [nil |-> TRUE] ELSE [nil |-> FALSE, to |-> ChainV(n - 1)]>>]
